@@ -95,6 +95,21 @@ func main() {
 		total.Behaviours += st.Behaviours
 		total.Steps += st.Steps
 	}
+	// the developer-address override: allowed from the fork height on, and not before the new conditions' own time lock
+	for _, dl := range [][2]uint64{{3, 4}, {4, 2}, {2, 2}} {
+		p := chain.Shapes()["devaddr"]
+		p.DevH, p.DevLock = dl[0], dl[1]
+		cfg := chain.BaseConfig(p)
+		cfg.Templates = []string{"pay", "sf"}
+		cfg.Defects = []string{"timing"}
+		cfg.PayAmts, cfg.Fees = []int{599}, []int{0}
+		cfg.MaxHeight = 6
+		o := opts
+		o.NoFocus = false
+		st := chain.Run(c, cfg, o)
+		total.Behaviours += st.Behaviours
+		total.Steps += st.Steps
+	}
 	c.Cov("lattice_points", len(lattice))
 	c.Cov("rejected_with_accepted_control", rejected)
 	c.Cov("accepted_exactly_at_bound", atBound)
@@ -108,7 +123,7 @@ func main() {
 	}
 	c.Traces(int64(total.Behaviours))
 	c.Count(int64(total.Steps), nontriv)
-	for _, need := range []string{"v2:proof!timing", "v2:expire!timing", "v2:rev2!timing", "v1:rev1!timing", "v1:prove1!timing", "v1:immature", "v2:immature", "v2:immature!mislabel", "v1:pay!era", "v2:pay!era"} {
+	for _, need := range []string{"v2:proof!timing", "v2:expire!timing", "v2:rev2!timing", "v1:rev1!timing", "v1:prove1!timing", "v1:immature", "v2:immature", "v2:immature!mislabel", "v1:pay!era", "v2:pay!era", "v1:sfdev!timing"} {
 		if rejected[need] == 0 {
 			c.Infra("vacuity: timing defect %s never rejected-with-accepted-control", need)
 		}
